@@ -247,3 +247,51 @@ package main
 //@   ensures [all-records-plotted-unless-interrupted] err == nil && !interrupted && d != 0 ==> n == dlen(d)
 //@   loop 1
 //@     invariant d != 0 && d == ref(dec) && 0 <= n && n == dpos(d) && n <= dlen(d) && !interrupted && !closedPlot && p != nil && out != nil
+
+// ---------------------------------------------------------------------------------- C13 C17 (commands)
+// The command closures: with no file argument the input is stdin, so the decoder always gets at least
+// one file (the precondition of decoder/encode/report/plotRun). The flag package is abstracted.
+//@ func encodeCmd$2
+//@   property C13
+//@   pragma unknowncalls havoc
+//@   pragma obligations contract
+//@   pragma frame off
+//@   before call encode: assert [stdin-when-no-file-is-named] len(arg0) >= 1
+//@ func reportCmd$2
+//@   property C13
+//@   pragma unknowncalls havoc
+//@   pragma obligations contract
+//@   pragma frame off
+//@   before call report: assert [stdin-when-no-file-is-named] len(arg0) >= 1
+//@ func plotCmd$2
+//@   property C17
+//@   pragma unknowncalls havoc
+//@   pragma obligations contract
+//@   pragma frame off
+//@   before call plotRun: assert [stdin-when-no-file-is-named] len(arg0) >= 1
+
+// attackCmd: every scalar flag is bound to the option field of its name with the documented default
+// (C19 "flag plumbing"; the flag package itself is abstracted).
+//@ func attackCmd
+//@   property C19
+//@   pragma unknowncalls havoc
+//@   pragma obligations contract
+//@   pragma frame off
+//@   before call StringVar: assert [string-flags-bound-to-their-fields]
+//@          (arg2 == "name" ==> arg1 == &opts.name && arg3 == "") && (arg2 == "targets" ==> arg1 == &opts.targetsf && arg3 == "stdin")
+//@          && (arg2 == "format" ==> arg1 == &opts.format && arg3 == "http") && (arg2 == "output" ==> arg1 == &opts.outputf && arg3 == "stdout")
+//@          && (arg2 == "body" ==> arg1 == &opts.bodyf && arg3 == "") && (arg2 == "cert" ==> arg1 == &opts.certf) && (arg2 == "key" ==> arg1 == &opts.keyf)
+//@          && (arg2 == "unix-socket" ==> arg1 == &opts.unixSocket && arg3 == "") && (arg2 == "prometheus-addr" ==> arg1 == &opts.promAddr && arg3 == "")
+//@          && (arg2 == "name" || arg2 == "targets" || arg2 == "format" || arg2 == "output" || arg2 == "body" || arg2 == "cert" || arg2 == "key" || arg2 == "unix-socket" || arg2 == "prometheus-addr")
+//@   before call BoolVar: assert [bool-flags-bound-to-their-fields]
+//@          (arg2 == "chunked" ==> arg1 == &opts.chunked && !arg3) && (arg2 == "http2" ==> arg1 == &opts.http2 && arg3) && (arg2 == "h2c" ==> arg1 == &opts.h2c && !arg3)
+//@          && (arg2 == "insecure" ==> arg1 == &opts.insecure && !arg3) && (arg2 == "lazy" ==> arg1 == &opts.lazy && !arg3) && (arg2 == "keepalive" ==> arg1 == &opts.keepalive && arg3)
+//@          && (arg2 == "session-tickets" ==> arg1 == &opts.sessionTickets && !arg3)
+//@          && (arg2 == "chunked" || arg2 == "http2" || arg2 == "h2c" || arg2 == "insecure" || arg2 == "lazy" || arg2 == "keepalive" || arg2 == "session-tickets")
+//@   before call DurationVar: assert [duration-flags-bound-to-their-fields]
+//@          (arg2 == "duration" ==> arg1 == &opts.duration && arg3 == 0) && (arg2 == "timeout" ==> arg1 == &opts.timeout && arg3 == 30000000000) && (arg2 == "duration" || arg2 == "timeout")
+//@   before call Uint64Var: assert [worker-flags-bound-to-their-fields]
+//@          (arg2 == "workers" ==> arg1 == &opts.workers && arg3 == 10) && (arg2 == "max-workers" ==> arg1 == &opts.maxWorkers && arg3 == 18446744073709551615) && (arg2 == "workers" || arg2 == "max-workers")
+//@   before call IntVar: assert [int-flags-bound-to-their-fields]
+//@          (arg2 == "connections" ==> arg1 == &opts.connections && arg3 == 10000) && (arg2 == "max-connections" ==> arg1 == &opts.maxConnections && arg3 == 0)
+//@          && (arg2 == "redirects" ==> arg1 == &opts.redirects && arg3 == 10) && (arg2 == "connections" || arg2 == "max-connections" || arg2 == "redirects")
